@@ -91,6 +91,17 @@ def vocabulary():
     add("restore-times", g.setprec("*", L(5)), [])
     add("call-rc", P(g.call(I("rc"), [L(1)]), g.chain(L(1), "+", L(2), "*", L(3))), [])
     add("call-rd", P(g.call(I("rd"), [L(1)])), [])
+    # a name declared inside a loop body / switch arm is local to it: after the loop the same name is the OUTER
+    # variable again, a free variable to be resolved when the code is frozen
+    add("frozen-while-shadow", g.decl("rq", g.freeze(lam1(g.seq([
+        g.decl("cc", L(0)),
+        g.while_(g.binop("<", I("cc"), I("aa")), g.seq([g.decl("yy", g.binop("*", I("cc"), L(100))), g.asg(T("cc"), g.binop("+", I("cc"), L(1)))])),
+        I("yy")])))), ["rq"])
+    add("frozen-for-shadow", g.decl("rq", g.freeze(lam1(g.seq([
+        g.for_do([g.cl_it(g.lv_id("ii"), g.lst([L(1), I("aa")]))], g.decl("yy", I("ii"))),
+        g.switch(I("aa"), [(g.LV_IGNORE, g.decl("yy", L(7)))]),
+        I("yy")])))), ["rq"])
+    add("call-rq", P(g.call(I("rq"), [L(2)])), [])
     # switch inside frozen code: each arm is a scope of its own; `literally e` is code in a pattern
     add("frozen-switch", g.decl("rw", g.freeze(lam1(g.switch(g.lst([I("aa"), I("yy")]), [
         (g.lv_tuple([g.lv_lit(0), g.lv_id("ww")]), g.binop("+", I("ww"), I("yy"))),
@@ -120,6 +131,17 @@ class FGen(c05gen.Gen):
             self.scopes[0][n] = k
 
     def stmt(self):
+        # inside a nested scope (loop body, switch arm, ...) an outer name may be shadowed by a local declaration;
+        # once that scope is left the name is the outer variable again (the initialiser does not mention the
+        # name itself: that is the known shadow-self finding)
+        if len(self.scopes) > 2 and self.rng.random() < 0.08:
+            o = self.rng.choice(["o1", "o2"])
+            if o not in self.scopes[-1]:
+                for _ in range(6):
+                    e = self.int_expr(1)
+                    if '"%s"' % o not in json.dumps(e):
+                        self.scopes[-1][o] = "int"
+                        return [g.decl(o, e)]
         # no assignment to / redeclaration of outer names except deliberately (freeze must then fail)
         for _ in range(8):
             before = self.budget
